@@ -331,6 +331,7 @@ def respell(q, ctx, rng, lang='py'):
     """One random composition of the spelling transformations of C08 applied to the structured query -> query text."""
     import copy
     q = copy.deepcopy(q)
+    cmt = '#' if lang == 'py' else '//'
     # interchangeable spellings on the structure
     if q.get('top') is not None and rng.random() < 0.5:
         q['top_kw'] = 'limit' if q.get('top_kw', 'top') == 'top' else 'top'
@@ -388,17 +389,17 @@ def respell(q, ctx, rng, lang='py'):
             elif r < 0.8:
                 out.append('\n' + ' ' * rng.randrange(0, 3))
             else:
-                out.append('\n# comment: select * from x where y order by z\n  ')
+                out.append('\n%s comment: select * from x where y order by z\n  ' % cmt)
         out.append(p)
     s = ''.join(out)
     if q.get('with'):
         s += ' ' * rng.randrange(1, 3) + rng.choice(['WITH', 'with', 'With']) + rng.choice([' ', '']) + '(%s)' % q['with']
     if rng.random() < 0.3:
-        s = '# leading comment\n' + s
+        s = '%s leading comment\n' % cmt + s
     if rng.random() < 0.3:
         s = '  ' + s
     if rng.random() < 0.2:
-        s += rng.choice([';', '']) + '\n# trailing comment; select'
+        s += rng.choice([';', '']) + '\n%s trailing comment; select' % cmt
         return s
     r = rng.random()
     if r < 0.25:
